@@ -1249,3 +1249,12 @@ Qed.
 
 Lemma copy_plumbing_lemma : copy_gr_plumbing = true /\ copy_sds_plumbing = true /\ copy_vs_plumbing = true.
 Proof. vm_compute. repeat split; reflexivity. Qed.
+
+(** * The dimension-scale copy of copy_sds (round 3) *)
+Lemma copy_sds_dim_plumbing_lemma :
+  copy_sds_dim_plumbing = true /\
+  (forall dtype dim_size, truth (sds_scale_guard dtype dim_size) = negb (dtype =? 0)).
+Proof.
+  split; [vm_compute; reflexivity|].
+  intros dtype dim_size. unfold sds_scale_guard, truth. destruct (dtype =? 0); reflexivity.
+Qed.
